@@ -308,8 +308,8 @@ def _mk_asn1(name):
     return mk
 
 
-def _tagset_ctor(ex, base, *tags):
-    return Obj('TagSet', {'baseTag': base, 'superTags': Tup(list(tags))}, name='baseTagSet')
+def _tagset_ctor(ex, base=None, *tags):
+    return Obj('TagSet', {'baseTag': base, 'base': base, 'superTags': Tup(list(tags))}, name='baseTagSet')
 
 
 ITEM_ENCODER_CALL = Contract(
@@ -349,3 +349,89 @@ ITEM_ENCODER_CALL = Contract(
 
 CONTRACTS = [ENCODE_TAG, ENCODE_LENGTH, ENCODE, BOOLEAN_ENC, CER_BOOLEAN_ENC, NULL_ENC, INTEGER_ENC, OID_ENC, SEQ_ENC,
              ITEM_ENCODER_CALL]
+
+
+# ---- OCTET STRING (and every string type) content: primitive, or segments of at most maxChunkSize octets --------------
+def _string_value(ex, env):
+    import z3 as _z
+    content = env['content']
+    base = Obj('Tag', {'__truthy__': _z.Bool('hasBaseTag')}, name='baseTag')
+    return Obj('OctetString', {'tagSet': Obj('TagSet', {'baseTag': base}, name='tagSet')},
+               {'asOctets': lambda ex2, self: content,
+                'clone': lambda ex2, self, **kw: Obj('OctetString', {'tagSet': kw.get('tagSet')}, name='fragmentSpec')},
+               name='value')
+
+
+def _encode_chunk(ex, chunk, asn1Spec=None, **options):
+    from spec.smt import enc_chunk
+    z = enc_chunk(chunk.z)
+    ex.assume(inr(z))
+    return SeqV(z, 'bytes')
+
+
+OCTETS_ENC = Contract(
+    id='ber.encoder::OctetStringEncoder.encodeValue[value-object]', file=F, qual='OctetStringEncoder.encodeValue',
+    properties=['C01', 'C03', 'C02'],
+    params=dict(self=PObj('OctetStringEncoder'), content=PBytes(), value=PDerived(_string_value), asn1Spec=PConst(None),
+                encodeFun=PConst(FnV(_encode_chunk, 'encodeFun')), options=POptions(maxChunkSize=PInt(), defMode=PBool())),
+    globals={'tag': {'TagSet': FnV(_tagset_ctor, 'tag.TagSet')}, 'hasBaseTag': __import__('z3').Bool('hasBaseTag')},
+    requires=['options.get("maxChunkSize", 0) >= 0'],
+    ensures=[
+        # X.690 8.7: primitive when no segment size is imposed or the string fits into one segment ...
+        ('primitive-when-it-fits', '(options.get("maxChunkSize", 0) == 0 or len(content) <= options.get("maxChunkSize", 0)) ==> '
+                                   '(result[0] == content and result[1] is False and result[2] is True)'),
+        # ... otherwise constructed from the encodings of consecutive segments of exactly maxChunkSize octets (the last
+        # one shorter): nothing lost, nothing reordered (CER 9.2 with maxChunkSize fixed to 1000)
+        ('segments-in-order', '(options.get("maxChunkSize", 0) > 0 and len(content) > options.get("maxChunkSize", 0)) ==> '
+                              '(result[0] == X.segments_upto(content, pos, options.get("maxChunkSize", 0)) and '
+                              'pos >= len(content) and pos - options.get("maxChunkSize", 0) < len(content) and '
+                              'X.multiple_of(pos, options.get("maxChunkSize", 0)) and result[1] is True and result[2] is True)'),
+    ],
+    loops={0: Loop(invariant=['pos >= 0', 'maxChunkSize > 0', 'isinstance(substrate, bytes)', 'X.inr(substrate)',
+                              'octets == content', 'pos - maxChunkSize < len(octets)', 'X.multiple_of(pos, maxChunkSize)',
+                              'substrate == X.segments_upto(octets, pos, maxChunkSize)'],
+                   variant='len(octets) - pos',
+                   # each segment is encoded as the base (untagged or base-tagged) string type, whatever tags the value has
+                   iter_ensures=['hasBaseTag ==> last_args("encodeFun")[1].tagSet.base is value.tagSet.baseTag',
+                                 'len(last_args("encodeFun")[0]) >= 1 and len(last_args("encodeFun")[0]) <= maxChunkSize'],
+                   hints=['X.lemma_segments_step(octets, iter_old(pos), maxChunkSize)'])},
+    calls={'encodeFun': _encode_chunk},
+    external=['primitive-when-it-fits', 'segments-in-order'],
+    note='every string codec (OCTET STRING, character strings, useful types) shares this method')
+CONTRACTS = CONTRACTS + [OCTETS_ENC]
+
+
+# ---- SEQUENCE OF / SET OF content: every element, in order, none of them optional -------------------------------------
+def _collection(ex, env):
+    els = [Obj('Element', {}, name='element%d' % i) for i in range(NCOMP)]
+    return Obj('SequenceOf', {'isInconsistent': False}, {'__iter__': lambda ex2, self: Tup(list(els), 'list')}, name='value')
+
+
+def _encode_element(ex, component, asn1Spec=None, **options):
+    import z3 as _z
+    from pyvc.core import S
+    i = int(component.name[-1])
+    z = _z.Const('chunk%d' % i, S)
+    ex.assume(inr(z))
+    return SeqV(z, 'bytes')
+
+
+SEQOF_COMPONENTS = Contract(
+    id='ber.encoder::SequenceOfEncoder._encodeComponents[value-object]', file=F, qual='SequenceOfEncoder._encodeComponents',
+    properties=['C01', 'C02', 'C03', 'C07'],
+    params=dict(self=PObj('SequenceOfEncoder'), value=PDerived(_collection), asn1Spec=PConst(None),
+                encodeFun=PConst(FnV(_encode_element, 'encodeFun')),
+                options=POptions(ifNotEmpty=PBool(), defMode=PBool(), maxChunkSize=PInt())),
+    globals={'chunk%d' % i: SeqV(__import__('z3').Const('chunk%d' % i, __import__('z3').SeqSort(__import__('z3').IntSort())), 'bytes')
+             for i in range(NCOMP)},
+    calls={'encodeFun': _encode_element},
+    loops={0: Loop(unroll=True, iter_ensures=[
+        # the member-level option "leave out if empty" never reaches an element (elements are not optional)
+        '"ifNotEmpty" not in last_kwargs("encodeFun")',
+        'last_kwargs("encodeFun").get("defMode", "absent") == old(options).get("defMode", "absent")',
+        'last_kwargs("encodeFun").get("maxChunkSize", "absent") == old(options).get("maxChunkSize", "absent")'])},
+    ensures=[('every-element-in-order', 'len(result) == %d and ' % NCOMP +
+              ' and '.join('result[%d] == chunk%d' % (i, i) for i in range(NCOMP)))],
+    external=['every-element-in-order'],
+    note='three elements; SET OF sorts these chunks afterwards (cer.encoder.SetOfEncoder, stand-in der-twin/cer-twin)')
+CONTRACTS = CONTRACTS + [SEQOF_COMPONENTS]
